@@ -17,7 +17,7 @@ CLAIMS = {
              "formatting stubbed by contract; tracer frame condition is an AST scan, not a proof",
         ref="§4 C01"),
     "C02": dict(
-        text="Inductive step of the interlock invariant I2 for 96 call shapes from every "
+        text="Inductive step of the interlock invariant I2 for 99 call shapes from every "
              "(tool, coolant) state, all numeric arguments incl. NaN/inf decided by z3; emitted "
              "M-codes judged by an independent interpreter; rejections must match documented "
              "conditions.",
@@ -181,7 +181,7 @@ CLAIMS = {
              "is read from printcore.py and stated as an assumption)",
         ref="§4 C16"),
     "C07": dict(
-        text="Inductive step of I7: after any of 96 call shapes from an arbitrary consistent state "
+        text="Inductive step of I7: after any of 99 call shapes from an arbitrary consistent state "
              "(symbolic feed, power, temperatures, E parameter, tool number) every state property "
              "the emitted program determines equals what an independent modal interpreter derives; "
              "z3 decides it for all arguments incl. NaN/inf, also after rejected calls.",
